@@ -576,6 +576,9 @@ impl Connection {
                 // ack-eliciting and in flight: unless it is tracked as such, no timer covers its loss
                 // and its bytes stay in flight.
                 ack_eliciting |= self.path.challenge.is_some();
+                // A STREAMS_BLOCKED frame noted by `Streams::open` is moved into the pending frames
+                // only when the control frames are written: it rides in this packet, ACK-only or not
+                ack_eliciting |= self.streams.streams_blocked_queued();
             }
             if close {
                 // A closing packet carries only ACK and CONNECTION_CLOSE frames, whatever else is
